@@ -50,6 +50,8 @@ const (
 	// driver keeps observing for a few periods before it cuts the line (an observation
 	// window, not a synchronisation: the barrier still follows)
 	silentWindow = 35 * time.Millisecond
+	// "addev": how long the new handler's first replay callback waits for the concurrent event to be handed over
+	addEvWindow = 25 * time.Millisecond
 )
 
 type resInfo struct {
@@ -105,6 +107,9 @@ type hrec struct {
 	removed       bool
 	late          int
 	lateFirst     string
+	// onFirst runs once, inside the first callback this handler ever receives (the add-time replay):
+	// the hook by which an object event is made to arrive WHILE the handler is being added
+	onFirst func()
 }
 
 func objOf(x interface{}) *unstructured.Unstructured {
@@ -145,6 +150,13 @@ func (h *hrec) on(kind string, oldX, newX interface{}) {
 	var orv int64
 	if kind == "upd" {
 		orv = rvOf(objOf(oldX))
+	}
+	h.mu.Lock()
+	first := h.onFirst
+	h.onFirst = nil
+	h.mu.Unlock()
+	if first != nil {
+		first()
 	}
 	h.mu.Lock()
 	defer h.mu.Unlock()
@@ -260,10 +272,67 @@ func (d *drv) nHandlers() int {
 	return len(d.handlers)
 }
 
-// execSlot performs one subscriber operation on the code under test.
-func (d *drv) execSlot(op opRec) {
+// execSlot performs one subscriber operation on the code under test; for "addev" it returns the
+// resourceVersion of the object event it produced.
+func (d *drv) execSlot(op opRec) (rv int64) {
 	sl := d.slots[op.S]
 	switch op.T {
+	case "addev":
+		h := d.handler(op.H)
+		h.slot, h.res, h.own = op.S, sl.res, op.Own
+		sl.hs = append(sl.hs, h)
+		// others: live handlers of the same resource, through which the hand-over of the event can be seen
+		var others []*hrec
+		for s := 1; s <= tNS; s++ {
+			if o := d.slots[s]; o != nil && o.sub != nil && o.res == sl.res {
+				for _, x := range o.hs {
+					if x != h {
+						others = append(others, x)
+					}
+				}
+			}
+		}
+		ri, name := d.objMeta(sl.res, op.O)
+		h.onFirst = func() {
+			t := "oupd"
+			if d.srv.Get(ri.key, ri.ns, name) == nil {
+				t = "oadd"
+			}
+			rv = d.execObj(opRec{T: t, R: sl.res, O: op.O})
+			// give the notification time to be handed over while the add is still in progress (with the lock
+			// held it cannot be, and this wait just runs out)
+			deadline := time.Now().Add(addEvWindow)
+			for time.Now().Before(deadline) {
+				seen := false
+				for _, x := range others {
+					x.mu.Lock()
+					for _, e := range x.evs {
+						if e.O == op.O && e.RV == rv {
+							seen = true
+						}
+					}
+					x.mu.Unlock()
+				}
+				if seen {
+					time.Sleep(2 * time.Millisecond)
+					return
+				}
+				time.Sleep(500 * time.Microsecond)
+			}
+		}
+		if op.Own {
+			sl.sub.Informer().AddEventHandlerWithResyncPeriod(h.funcs(), ownResync)
+		} else {
+			sl.sub.Informer().AddEventHandler(h.funcs())
+		}
+		h.mu.Lock()
+		pending := h.onFirst != nil
+		h.onFirst = nil
+		h.mu.Unlock()
+		if pending {
+			fail("addev: the handler received no replay callback, the event could not be placed")
+		}
+		return rv
 	case "sub":
 		ri := resTab[op.R]
 		sub, err := d.w.DynInformers.Resource(ri.apiVersion, ri.resource)
@@ -293,6 +362,7 @@ func (d *drv) execSlot(op opRec) {
 	default:
 		fail("unknown slot operation %q", op.T)
 	}
+	return 0
 }
 
 // hadOwn: the slot's subscription was given a handler with a private resync period
@@ -597,6 +667,8 @@ func runSeq(sc *scenario, out *lineWriter, timeout time.Duration) bool {
 		switch op.T {
 		case "sub", "add", "rem", "close":
 			pmsg = guarded(func() { d.execSlot(op) })
+		case "addev":
+			pmsg = guarded(func() { op.RV = d.execSlot(op) })
 		case "oadd", "oupd", "odel":
 			op.RV = d.execObj(op)
 		default:
@@ -633,7 +705,7 @@ func runRace(sc *scenario, out *lineWriter, timeout time.Duration) bool {
 			k = 0
 		}
 		progs[k] = append(progs[k], i)
-		if st.Op.T == "add" {
+		if st.Op.T == "add" || st.Op.T == "addev" {
 			h := d.handler(st.Op.H)
 			_ = h
 		}
@@ -655,7 +727,7 @@ func runRace(sc *scenario, out *lineWriter, timeout time.Duration) bool {
 				if k == 0 {
 					m = guarded(func() { rvs[i] = d.execObj(op) })
 				} else {
-					m = guarded(func() { d.execSlot(op) })
+					m = guarded(func() { rvs[i] = d.execSlot(op) })
 				}
 				if m != "" {
 					pmu.Lock()
